@@ -45,7 +45,7 @@ pub fn alphabet(enc: &'static Encoding) -> Vec<(Vec<u8>, char)> {
         }
     };
     if enc == encoding_rs::UTF_8 {
-        for c in ['é', 'я', '€', '日', '\u{10348}', '\u{FFFD}', '\u{80}', '\u{7FF}', '\u{800}', '\u{FFFF}', '\u{10FFFF}'] {
+        for c in ['é', 'я', '€', '日', '\u{10348}', '\u{FFFD}', '\u{80}', '\u{7FF}', '\u{800}', '\u{FFFF}', '\u{10FFFF}', '\u{FEFF}', '\u{FFFE}', '\u{85}', '\u{2028}'] {
             let mut b = [0u8; 4];
             try_seq(c.encode_utf8(&mut b).as_bytes());
         }
@@ -106,10 +106,9 @@ fn read_doc(bytes: &[u8], src: Src, from_str: Option<&str>) -> Result<Seen, Stri
                         }
                         one
                     };
-                    for b in ev.iter().take(3) {
-                        if *b == 0xEF && ev.starts_with(&[0xEF, 0xBB, 0xBF]) {
-                            return Err("a byte-order mark appears in an event".into());
-                        }
+                    // a byte-order mark that leaked would lead the first event (U+FEFF later in the document is an ordinary character)
+                    if seen.kinds.is_empty() && bytes.starts_with(&[0xEF, 0xBB, 0xBF]) && ev.starts_with(&[0xEF, 0xBB, 0xBF]) && !bytes[3..].starts_with(&[0xEF, 0xBB, 0xBF]) {
+                        return Err("a byte-order mark appears in an event".into());
                     }
                     match &ev {
                         Event::Eof => break,
@@ -297,6 +296,74 @@ fn check_encoding(acc: &mut Acc, order: (u32, u64), enc: &'static Encoding, seed
         }
         if di == 0 {
             acc.sample(seed, h64(&label), || json!({"encoding": label, "characters": chars, "document_utf8": utf8_doc}));
+        }
+    }
+    // every character of the alphabet (capped per encoding) as the FIRST character of every payload
+    let step = (alpha.len() / 96).max(1);
+    for (ci, (_, c)) in alpha.iter().enumerate().filter(|(i, _)| i % step == 0 || *i < 32) {
+        let utf8_doc = format!("<?xml version=\"1.0\" encoding=\"{l}\"?><r k=\"{c}v\" {c}k=\"{c}\"><!--{c}c--><?p {c}d?><![CDATA[{c}]]>{c}t<{c}e/>{c}</r>", l = label, c = c);
+        let (bytes, _, unmappable) = enc.encode(&utf8_doc);
+        if unmappable {
+            continue;
+        }
+        let strings: Vec<String> = vec![
+            format!("xml version=\"1.0\" encoding=\"{}\"", label), "r".into(), "k".into(), format!("{}v", c), format!("{}k", c), format!("{}", c), format!("{}c", c), format!("p {}d", c),
+            format!("{}", c), format!("{}t", c), format!("{}e", c), format!("{}", c), "r".into(),
+        ];
+        for src in [Src::Slice, Src::Buf(0), Src::Buf(5)] {
+            acc.evaluations += 1;
+            acc.traces += 1;
+            match read_doc(&bytes, src, None) {
+                Ok(seen) if seen.strings == strings => acc.nt_count += 1,
+                Ok(seen) => {
+                    let k = (0..strings.len().max(seen.strings.len())).find(|&k| strings.get(k) != seen.strings.get(k));
+                    acc.violation(order, format!("{} character {:?} (U+{:04X}) first in every payload ({:?}): payload {:?} read as {:?}", label, c, *c as u32, src, k.and_then(|k| strings.get(k)), k.and_then(|k| seen.strings.get(k))), json!({"encoding": label, "lead_char": ci}))
+                }
+                Err(what) => acc.violation(order, format!("{} character {:?} (U+{:04X}) first in every payload ({:?}): {}", label, c, *c as u32, src, what), json!({"encoding": label, "lead_char": ci})),
+            }
+        }
+    }
+    // long payloads (size thresholds of the decoder: block-wise decoding, buffer growth): the alphabet
+    // cycled up to N bytes in an attribute value, a text (behind 0..3 ASCII bytes) and a comment
+    if !alpha.is_empty() {
+        for &n in &[1000usize, 1023, 1024, 1025, 1026, 2047, 2049, 4095, 4096, 4097, 8191, 8193, 16385, 65537] {
+            let mut t = String::new();
+            let mut blen = 0;
+            let mut i = 0;
+            while blen < n {
+                let (b, c) = &alpha[(i * 7 + i / alpha.len()) % alpha.len()];
+                t.push(*c);
+                blen += b.len();
+                // ASCII in between, so that every alignment of lead and trail bytes against a block boundary occurs
+                if i % 5 == 4 {
+                    t.push('a');
+                    blen += 1;
+                }
+                i += 1;
+            }
+            for pad in ["", "a", "ab", "abc"] {
+                let utf8_doc = format!("<?xml version=\"1.0\" encoding=\"{l}\"?><r k=\"{t}\">{p}{t}<!--{t}--></r>", l = label, t = t, p = pad);
+                let (bytes, _, unmappable) = enc.encode(&utf8_doc);
+                if unmappable {
+                    continue;
+                }
+                let strings: Vec<String> = vec![format!("xml version=\"1.0\" encoding=\"{}\"", label), "r".into(), "k".into(), t.clone(), format!("{}{}", pad, t), t.clone(), "r".into()];
+                for src in [Src::Slice, Src::Buf(0), Src::Buf(4096), Src::Buf(7)] {
+                    if n > 9000 && src == Src::Buf(7) {
+                        continue;
+                    }
+                    acc.evaluations += 1;
+                    acc.traces += 1;
+                    match read_doc(&bytes, src, None) {
+                        Ok(seen) if seen.strings == strings => acc.nt_count += 1,
+                        Ok(seen) => {
+                            let k = (0..strings.len().max(seen.strings.len())).find(|&k| strings.get(k) != seen.strings.get(k));
+                            acc.violation(order, format!("{}: payloads of {} bytes behind {:?} ({:?}): payload #{:?} differs from the original", label, n, pad, src, k), json!({"encoding": label, "long": n}))
+                        }
+                        Err(what) => acc.violation(order, format!("{}: payloads of {} bytes behind {:?} ({:?}): {}", label, n, pad, src, what.chars().take(300).collect::<String>()), json!({"encoding": label, "long": n})),
+                    }
+                }
+            }
         }
     }
     // malformed sequences must give a decoding error, never replacement characters
@@ -560,7 +627,7 @@ pub fn run(ctx: &Ctx) {
         "for every encoding_rs encoding that reports itself ASCII-compatible (36 of 40): the alphabet is EVERY one- and two-byte high \
          sequence (plus gb18030 four-byte range boundaries) that decodes without error to one character and re-encodes to itself; the \
          characters are packed 16 per document into element name, attribute name, attribute value, comment, PI data, CDATA (also around \
-         a `]`), text; each document is transcoded from its UTF-8 original, labelled in its declaration, and read from a slice and a \
+         a `]`), text; every character of a per-encoding subset also as the FIRST character of every payload; long payloads (the alphabet cycled up to 1000 … 65537 bytes in an attribute value, a text and a comment, shifted by 0..3 bytes); each document is transcoded from its UTF-8 original, labelled in its declaration, and read from a slice and a \
          buffered source (whole, pieces of 1, 2, 3, 4 and 7), also behind a line feed; for UTF-8 also behind a BOM. Oracle: the same event kinds, every payload decoded \
          with the reader's decoder (and unescaped) equals the original string, the decoder reports the declared encoding after the \
          declaration, Reader::from_str keeps UTF-8 whatever is declared, no BOM inside an event — also when the very first refill fails with a transient I/O error and the caller reads on. Malformed: every lead byte / (lead, \
